@@ -49,7 +49,7 @@ PROPS = {
                           dict(name="builder", family="builder", profile="default", quick=900, thorough=15000, shard=150, tags=["nil", "issues", "dest", "panic"]),
                           # what a front end delivers for a key that is there: a list of one blank entry is a list, a blank scalar is absent
                           dict(name="fe", family="fe", profile="fe", quick=700, thorough=10000, tags=["nil", "issues", "dest", "panic"])]),
-    "C05": dict(theorems=["C05_catch_own_node", "C05_catch_with_transforms", "C05_catch_is_local", "C05_elements_are_independent", "C05_engine_computes_semantics"], cone=ENGINE_CONE + ["Proofs/Indep.v", "Proofs/CatchP.v"], rule=ENGINE_RULE,
+    "C05": dict(theorems=["C05_catch_own_node", "C05_catch_with_transforms", "C05_catch_behind_pointer", "C05_catch_is_local", "C05_elements_are_independent", "C05_engine_computes_semantics"], cone=ENGINE_CONE + ["Proofs/Indep.v", "Proofs/CatchP.v"], rule=ENGINE_RULE,
                 families=[eng("engine", "C05", 1200, 20000, ["nil", "issues", "dest", "panic"]),
                           # Catch next to the other modifiers, called in every order, on every primitive kind
                           dict(name="builder", family="builder", profile="default", quick=700, thorough=12000, shard=150, tags=["nil", "issues", "dest", "panic"])]),
